@@ -826,25 +826,20 @@ def _register_vector_gradient_rules() -> None:
 
         # Fast paths for VectorVariable
         if isinstance(left, VectorVariable) and isinstance(right, VectorVariable):
-            if left_index is not None and right_index is not None:
-                # wrt appears in both: x · x case or overlapping vectors
-                # ∂(x·x)/∂x_i = 2*x_i
-                if left is right or left.name == right.name:
+            if left is right:
+                # x · x: ∂(x·x)/∂x_i = 2*x_i
+                if left_index is not None:
                     return _simplify_mul(Constant(2.0), wrt)
-                else:
-                    # Different vectors with same variable name? Sum contributions
-                    return _simplify_add(
-                        right_elems[left_index], left_elems[right_index]
-                    )
-            elif left_index is not None:
-                # wrt only in left: ∂(x·c)/∂x_i = c_i
-                return right_elems[left_index]
-            elif right_index is not None:
-                # wrt only in right: ∂(c·y)/∂y_i = c_i
-                return left_elems[right_index]
-            else:
-                # wrt not in either vector
                 return Constant(0.0)
+            # Two (possibly overlapping) views: sum the partner of every occurrence
+            # of wrt, position by position - never match vectors by name.
+            total: Expression = Constant(0.0)
+            for l_var, r_var in zip(left_elems, right_elems):
+                if l_var.name == wrt.name:
+                    total = _simplify_add(total, r_var)
+                if r_var.name == wrt.name:
+                    total = _simplify_add(total, l_var)
+            return total
 
         # General case: iterate through elements with product rule
         result: Expression = Constant(0.0)
